@@ -298,17 +298,25 @@ def check(ctx, src):
                 if cls in ("Try", "TryStar") and "handlers" in kwargs and "finalbody" in kwargs:
                     a, b = ne.nonempty(kwargs["handlers"], call), ne.nonempty(kwargs["finalbody"], call)
                     key = f"{m.rel}|{q}|{cls}.handlers-or-finalbody"
-                    guards = [norm(t) for pol, t in _enclosing_tests(call, top)]
-                    early = pyq.contains(top, lambda n: isinstance(n, ast.If) and norm(n.test) == "not (catchers or finalbody)"
-                                         and n.body and isinstance(n.body[-1], ast.Return))
+                    early = next((n for n in ast.walk(top) if isinstance(n, ast.If) and n.body and isinstance(n.body[-1], ast.Return)
+                                  and norm(n.test) in ("not (catchers or finalbody)", "not catchers and (not finalbody)")), None)
                     if "yes" in (a, b):
                         ctx.ok("O2", key, "one of them provably non-empty")
-                    elif early is not None and (b.startswith("maybe:") or b.startswith("unknown")):
-                        # guard is on the *forms*, not on the compiled statements
-                        fin_def = [n for n in ast.walk(top) if isinstance(n, ast.Assign) and norm(n.targets[0]) == "finalbody"]
-                        ok_fb = any("or [" in norm(n.value) for n in fin_def)
-                        ctx.check(ok_fb, "O2", key, "when the try has no except clause, `finalbody` is `finalbody.stmts`, which is empty for `(finally)` / `(finally (do))`; "
-                                  "Python rejects a Try with neither handlers nor finalbody", m.rel, call.lineno, witness="(try 1 (finally (do)))", detail="finalbody has a Pass fallback")
+                    elif early is not None:
+                        # the forms guarantee an except clause or a finally clause; what remains is that a finally clause
+                        # that is present never compiles to an empty list: every definition reaching `finalbody=` is the
+                        # literal [] (no clause) or provably non-empty
+                        fb = kwargs["finalbody"]
+                        defs = [h[1] for h in (ne.reach.at.get(id(fb)) or []) if h[0] == "val"] if isinstance(fb, ast.Name) else [fb]
+                        verdicts = ["yes" if (isinstance(d, ast.List) and not d.elts) else ne.nonempty(d, call) for d in defs]
+                        if defs and all(v == "yes" for v in verdicts):
+                            ctx.ok("O2", key, "finalbody is [] (no finally clause) or has a Pass fallback")
+                        elif any(v.startswith("maybe:") for v in verdicts):
+                            why = next(v for v in verdicts if v.startswith("maybe:"))[6:]
+                            ctx.bad("O2", key, f"with a finally clause and no except clause, finalbody can be empty ({why}); Python rejects a Try with neither handlers nor finalbody",
+                                    m.rel, call.lineno, witness="(try 1 (finally (do)))")
+                        else:
+                            ctx.unres("O2", key, f"finalbody: {verdicts}")
                     else:
                         ctx.unres("O2", key, f"handlers: {a}; finalbody: {b}")
     ctx.need(n_sites >= 150, f"only {n_sites} AST construction sites found (162 confirmed by hand)")
